@@ -381,7 +381,14 @@ def report(rep, script, status, ev, verdict, stats):
                 cmd = prior[-1][1]["command"]
                 st = state_of(ev, prior[-1][0])
         # defect (a) can only show once a forwarder has taken a sequence number
-        fwd_active = any(e["ev"] == "sched" and e.get("p") in ("fout", "ferr") for e in ev[:(at or 0) + 1])
+        # (the log position of a `sched` event may trail the fetch_add it reports, so also: a forwarder message
+        # with a smaller sequence number appears later on the wire, or the offender is a forwarder itself)
+        a0 = at or 0
+        xseq = ev[a0].get("seq", 0) if at is not None and ev[a0]["ev"] == "wire" else 0
+        fwd_active = (any(e["ev"] == "sched" and e.get("p") in ("fout", "ferr") for e in ev[:a0 + 1])
+                      or (at is not None and ev[a0].get("by") in ("fout", "ferr"))
+                      or any(e["ev"] == "wire" and e.get("by") in ("fout", "ferr") and isinstance(e.get("seq"), int)
+                             and e["seq"] < xseq for e in ev[a0 + 1:]))
         rep.mismatch(cls, action, command=cmd, state=st, fwd_active=fwd_active, property_clause=PROP_OF.get(cls, "EventsOnceAndCausal"),
                      expected="reference (DapWire monitor) holds at every step of the recorded session",
                      actual=f"{cls} at trace event {at}: {json.dumps(ev[at])[:240] if at is not None else ''}",
